@@ -19,6 +19,12 @@ from . import loader as loader_mod
 from . import symnp
 from .ctx import SymCtx, RealCtx, ShimCtx, ConcreteViolation, same, to_py
 
+import logging as _logging
+import warnings as _warnings
+_logging.getLogger("batchie").setLevel(_logging.CRITICAL + 1)   # logging output is not the subject of any property
+_logging.getLogger("nextflow_script").setLevel(_logging.CRITICAL + 1)
+_warnings.filterwarnings("ignore")
+
 VERIF = os.path.dirname(os.path.dirname(os.path.abspath(__file__)))
 EVIDENCE_DIR = os.path.join(VERIF, "evidence")
 REPLAY_DIR = os.path.join(EVIDENCE_DIR, "replays")
@@ -93,17 +99,25 @@ def _task(args):
 
 
 def _raised_in_repo(ex):
-    """module:function of the innermost frame if the exception was raised by /repo code (not by a model or the harness)"""
+    """module:function of the innermost /repo frame if the exception was raised by /repo code, or by a library
+    model on behalf of a library call made from /repo code (the replay on the real libraries decides whether
+    the real library raises too); None if it comes from the harness itself"""
     tb = ex.__traceback__
-    last = None
+    frames = []
     while tb is not None:
-        last = tb
+        frames.append(tb.tb_frame)
         tb = tb.tb_next
-    if last is None:
+    if not frames:
         return None
-    fn = last.tb_frame.f_code.co_filename
+    models = ("bverif/symnp.py", "bverif/symlibs.py", "bverif/engine.py")
+    i = len(frames) - 1
+    while i >= 0 and frames[i].f_code.co_filename.endswith(models):
+        i -= 1
+    if i < 0:
+        return None
+    fn = frames[i].f_code.co_filename
     if fn.startswith(loader_mod.REPO + "/"):
-        return "%s:%s" % (os.path.relpath(fn, loader_mod.REPO), last.tb_frame.f_code.co_name)
+        return "%s:%s" % (os.path.relpath(fn, loader_mod.REPO), frames[i].f_code.co_name)
     return None
 
 
